@@ -229,6 +229,7 @@ def gray(i: int) -> int:
 
 
 class GFE:
+    _kv_eval_obj = True
     """Element of GF(2^m) = GF(2)[x]/(mod) in the checker's own arithmetic (operators as the repository's field
     elements offer them: +, *, ** with an integer exponent, ==)."""
 
@@ -283,3 +284,102 @@ class GFE:
 
     def __repr__(self):
         return f"GF({self.v:#b})"
+
+
+class EvalObj:
+    """Marker: instances may be handled (attribute reads, calls, operators) by constfold.Folder."""
+
+    _kv_eval_obj = True
+
+
+class BP(EvalObj):
+    """Polynomial over GF(2) as the repository's BinaryPolynomial offers it (value, degree, +, *, %, //, ==)."""
+
+    __slots__ = ("value",)
+
+    def __init__(self, value: int = 0):
+        if isinstance(value, BP):
+            value = value.value
+        if not isinstance(value, int) or isinstance(value, bool) or value < 0:
+            raise TypeError("BinaryPolynomial value")
+        self.value = value
+
+    @property
+    def degree(self) -> int:
+        return self.value.bit_length() - 1
+
+    def __add__(self, o):
+        return BP(self.value ^ o.value)
+
+    __sub__ = __add__
+
+    def __mul__(self, o):
+        return BP(pmul(self.value, o.value))
+
+    def __mod__(self, o):
+        if o.value == 0:
+            raise ZeroDivisionError("polynomial modulo zero")
+        return BP(pmod(self.value, o.value))
+
+    def __floordiv__(self, o):
+        if o.value == 0:
+            raise ZeroDivisionError("polynomial division by zero")
+        return BP(pdivmod(self.value, o.value)[0])
+
+    def div(self, o):
+        return self.__floordiv__(o)
+
+    def __eq__(self, o):
+        return isinstance(o, BP) and o.value == self.value
+
+    def __ne__(self, o):
+        return not self.__eq__(o)
+
+    def __hash__(self):
+        return hash(self.value)
+
+    def __bool__(self):
+        return self.value != 0
+
+    def __repr__(self):
+        return f"BP({self.value:#b})"
+
+
+class FieldModel(EvalObj):
+    """GF(2^m) as the repository's FiniteBifield offers it to its elements: m, size, modulus, tables, field(value)."""
+
+    def __init__(self, m: int, modulus: int, exp_table=None, log_table=None):
+        self.m = m
+        self.size = 1 << m
+        self.modulus = BP(modulus)
+        self._exp_table = list(exp_table) if exp_table is not None else [0] * self.size
+        self._log_table = list(log_table) if log_table is not None else [0] * self.size
+
+    def __call__(self, value):
+        if not isinstance(value, int) or isinstance(value, bool):
+            raise TypeError("field element value")
+        return FieldElem(self, value % self.size)
+
+
+class FieldElem(EvalObj):
+    def __init__(self, field: FieldModel, value: int):
+        self.field = field
+        self.value = value
+
+    def __mul__(self, o):
+        return FieldElem(self.field, pmulmod(self.value, o.value, self.field.modulus.value))
+
+    def __add__(self, o):
+        return FieldElem(self.field, self.value ^ o.value)
+
+    def __eq__(self, o):
+        return isinstance(o, FieldElem) and o.value == self.value
+
+    def __ne__(self, o):
+        return not self.__eq__(o)
+
+    def __hash__(self):
+        return hash(self.value)
+
+    def __repr__(self):
+        return f"FE({self.value:#b})"
